@@ -26,7 +26,8 @@ func buildCallGraph(statements []ast.Statement) callGraph {
 		callerName := decl.Name.Value
 		callees := extractCallees(decl.Block)
 		if len(callees) > 0 {
-			graph[callerName] = callees
+			// A lifecycle subroutine may be declared more than once (the bodies are concatenated): keep every body's calls
+			graph[callerName] = append(graph[callerName], callees...)
 		}
 	}
 
